@@ -793,7 +793,7 @@ func init() {
 		ID:        "C12",
 		Technique: "proto-mode output of the real Marshal parsed by protobuf-go (dynamicpb with a proto2 descriptor generated from the Go type) and by the model's strict walker; protobuf-go's own serialisation decoded by plenc; default-mode decode of the repeated-field form; four-configuration metamorphic comparison",
 		Rule: "generated struct types with every map field tagged proto (indexes legal as protobuf field numbers in 3 of 4 cases) x boundary-biased values, ProtoCompatibleArrays+ProtoCompatibleTime instance. Per value: strict walk (exact lengths, wire types 0/1/2/5 only), byte comparison with the documented proto-mode encoding, round trip, and - for types expressible as a protobuf schema (sint64/uint64/float/double/bool/bytes, nested messages, packed and repeated fields, key=1/value=2 entry messages, Timestamp{int64 seconds=1; int32 nanos=2}) - parse by protobuf-go with zero unknown fields and equal values/presence, then protobuf-go's serialisation (number order) read back by plenc; " +
-			"arrays-only output read by a default instance; encodings under the four configurations compared for types that a switch does not govern. distinct = (type, value-shape) hashes",
+			"every decode repeated into a recycled target (slices cut to [:0], other fields zeroed); every third value through long-lived instances; arrays-only output read by a default instance; encodings under the four configurations compared for types that a switch does not govern. distinct = (type, value-shape) hashes",
 		Assume: []string{"google.golang.org/protobuf v1.26.0 as the standard implementation", "null.* and JSON-any fields, slices of slices and pointers to slices have no protobuf schema: they are checked by the walker and the model only"},
 		Plan: func(tier string) []core.Lane {
 			if tier == "thorough" {
